@@ -117,6 +117,8 @@ def gen_case(rng, mode='2d', nb=None, nm=None, flags=None, hostile=False, fmt=No
                 case['flux'][m][j] = fl
     if fmt is None and rng.random() < 0.3:       # drawn last, so that the rest of the case does not depend on it
         case['fmt'] = 'v2'
+    if mode == '2d' and rng.random() < 0.3:
+        case['no_drange'] = True
     if nm > 1 and rng.random() < 0.25:
         case['band_orders'] = [rng.sample(list(range(nm)), nm) for _ in range(nb)]
     return case
@@ -203,8 +205,9 @@ def make_fitter(d, case, bands=None, **kw):
     dr = case.get('drange', [1.0, 2.0])
     if case.get('fmt') == 'v2':
         kw.setdefault('use_memmap', False)      # float64 model fluxes: the comparison tolerances assume them (the float32 memory map is exercised by C08 and by rr_mm below)
+    drq = None if (case['mode'] == '2d' and case.get('no_drange')) else np.array(dr) * u.kpc      # the range has no meaning for distance-independent packages: it may be left out
     return Fitter(['F%d' % j for j in bands], np.array(theta) * u.arcsec, d, extinction_law=make_extinction(case['ext']),
-                  av_range=tuple(case['av_range']), distance_range=np.array(dr) * u.kpc, **kw)
+                  av_range=tuple(case['av_range']), distance_range=drq, **kw)
 
 
 def info_out(info, fitter=None):
